@@ -379,9 +379,12 @@ func (wk *Worker) runJob(job *Job) *JobResult {
 			break
 		}
 	}
-	// leave the solver at level 0 for the next job
+	// leave the solvers at level 0 for the next job
 	if wk.solver.level > 0 {
 		wk.solver.Pop(wk.solver.level)
+	}
+	if wk.xsolver != nil && wk.xsolver.level > 0 {
+		wk.xsolver.Pop(wk.xsolver.level)
 	}
 	res.Inconc = append(res.Inconc, ex.inconc...)
 	res.Inconc = dedupStrings(res.Inconc)
